@@ -136,11 +136,13 @@ def run(ctx):  # noqa: C901, PLR0912, PLR0915
     y = yields[0]
     after = [n for n in g.reach_after_exception_of(y) if n.stmt is not None and n.kind in ('stmt', 'return', 'test', 'for', 'with')]
     effects = []
+    resets = 0
     for n in after:
         st = n.stmt
         if n.kind == 'stmt' and isinstance(st, ast.Assign) and len(st.targets) == 1 and \
                 unparse(st.targets[0]) == 'self.current_transaction' and isinstance(st.value, ast.Constant) and \
                 st.value.value is None:
+            resets += 1
             continue
         if n.kind == 'stmt' and isinstance(st, ast.Expr) and isinstance(st.value, ast.Constant):
             continue
@@ -150,6 +152,16 @@ def run(ctx):  # noqa: C901, PLR0912, PLR0915
            f'after the transaction body raised these statements can still run: '
            f'{[e.text()[:60] for e in effects][:4]}', fi=tm, node=y.stmt,
            witness={'reachable_after_abort': [n.text()[:70] for n in after]})
+    # ... and it does run: the aborted transaction object does not stay registered as the current one (the helpers of
+    # mdib.xtra consult current_transaction and would treat the content of the dead transaction as pending)
+    sets = [n for n in g.real_nodes() if n.kind == 'stmt' and isinstance(n.stmt, ast.Assign) and
+            any(unparse(t) == 'self.current_transaction' for t in n.stmt.targets) and
+            not (isinstance(n.stmt.value, ast.Constant) and n.stmt.value.value is None)]
+    ctx.ob('C03.R2', 'abort edge forgets the transaction', resets > 0 or not sets,
+           'after the transaction body raised, current_transaction is reset to None' if resets or not sets else
+           'after the transaction body raised, self.current_transaction keeps the aborted transaction (the reset is not on '
+           'the exception edge of the yield): mdib.xtra helpers put new states into the dead transaction and resolve '
+           'descriptors that were never committed', fi=tm, node=y.stmt)
     pts = g.nodes_calling('process_transaction')
     obs = observable_names(repo, PM)
     ctx.floor('C03.R2', len(obs), 8, 'ObservableProperty attributes of ProviderMdib/MdibBase')
@@ -303,6 +315,8 @@ def run(ctx):  # noqa: C901, PLR0912, PLR0915
     # ------------------------------------------------------------------ R6 unique keys are checked when the call is made
     ctx.rule('C03.R6', 'a new object is accepted into a transaction only after its unique key was checked against the table')
     unique_idx = {'descriptions': 'handle', 'states': 'descriptor_handle', 'context_states': 'handle'}
+    from .c10 import mk_context_state_checks_handles
+    mk_context_state_checks_handles(ctx, 'C03.R6')
     n_new = 0
     for fi in api_funcs:
         g = cfg_of(fi)
@@ -426,6 +440,7 @@ def run(ctx):  # noqa: C901, PLR0912, PLR0915
 
     from . import common
     common.copies_are_deep(ctx, 'C03.R4', with_mk_copy=False)
+    common.written_entities_are_copied(ctx, 'C03.R4')
     # ------------------------------------------------------------------ R5
     hs = repo.func(f'{TR}._TransactionBase._handle_state_updates')
     for c in calls_in(hs.node):
